@@ -339,7 +339,7 @@ func (g *Gen) object(depth int, path []string, encl [][]string) *Node {
 				f.ParentOn = []ParentOn{{Depth: d, Names: encl2[d][:1+g.R.Pick(len(encl2[d]))]}}
 			}
 		}
-		if g.Auth && g.R.Chance(1, 3) {
+		if g.Auth && g.R.Chance(1, 3) && len(f.Value.Path) == 1 {
 			pt := o.TypeName
 			f.Auth = &Auth{ParentType: pt, FieldName: name}
 		}
